@@ -266,7 +266,7 @@ def instances(tier, seed):
                     if tier == "quick":
                         variants = ["sequential"] + rng.sample(variants[1:], min(2, len(variants) - 1))
                     for v in variants:
-                        if not has_time and v.startswith(("mixed", "naive", "sequential")):
+                        if not has_time and v.startswith(("naive",)):
                             continue
                         out.append(("markov", cfg, v))
     # two state pairs of EQUAL size whose prev names and curr names sort in different orders, every variant
